@@ -200,6 +200,14 @@ class Table(Vector):
 		
 		self._length = len(initial[0]) if initial else 0
 		
+		# A table is rectangular: refuse columns of different lengths
+		for vec in initial:
+			if len(vec) != self._length:
+				raise SerifValueError(
+					f"All columns of a Table must have the same length: "
+					f"got {len(vec)} and {self._length}"
+				)
+		
 		# Deep copy columns to enforce value semantics
 		# Tables receive snapshots of vectors, preventing aliasing
 		# Save original names BEFORE copying
